@@ -3,6 +3,7 @@
    that va is the predecessor's retirement report (assumption: attestation cryptography is sound). *)
 From stdpp Require Import gmap.
 From DS Require Import Base Decimal StreamValue Aggregators Outcome OutcomeProofs StepTheorems HistoryProofs NvHistory.
+From DS Require Import RetirementJson RetirementProofs.
 Open Scope Z_scope.
 
 (* predecessor: whatever happens after its last report of c (further rounds, retirement), the validity start it
@@ -20,6 +21,14 @@ Print Assumptions C04_retirement_value_is_last_end.
 Theorem C04_retired_emits_only_retirement_report : forall cf seq o,
   1 < seq -> o_stage o = Retired -> reports_of cf seq o = (Some (o_va o), []).
 Proof. exact retired_emits_only_retirement_report. Qed.
+
+(* ... and the report survives its transport: what the successor decodes from the attested bytes is exactly the map
+   of validity starts the retired predecessor put in (JSON codec, any number of channels) *)
+Theorem C04_retirement_report_transport : forall pver (va : gmap Z Z),
+  0 <= pver -> map_Forall (fun k v => 0 <= k /\ 0 <= v) va ->
+  rr_decode (rr_encode pver (Some va)) = Some (pver, Some va).
+Proof. intros pver va Hp Hm. apply rr_roundtrip; [exact Hp|]. intros m H. inversion H; subst. exact Hm. Qed.
+Print Assumptions C04_retirement_report_transport.
 
 (* successor: promotion happens only on a verified attestation and adopts its validity starts wholesale *)
 Theorem C04_promotion_adopts : forall h cf e,
